@@ -102,6 +102,7 @@ def check(ctx):
     _rotations(rep, model)
     _surfaces(rep, model)
     _curved_detectors(rep, model)
+    _detector_alignment(rep, model)
     _det_axes(rep, model)
     _surface_normal(rep, model)
     _composition(rep, model)
@@ -660,12 +661,18 @@ def _coverage(rep, model):
                     self.det = (args[0], args[1])
                 return Rec('partition')
             if isinstance(f, ClassV):
+                # the geometry that is returned: keep its keyword arguments
+                self.geom = (f.ci.name, list(args), dict(kwargs))
                 return Rec(f.ci.name)
             return GH.on_call(self, interp, f, args, kwargs, node)
+
+    last_hooks = []
 
     def run(rel, name, sp, args, rho):
         fn = model.ctx.func(rel, name)
         h = FH(rho)
+        h.geom = None
+        last_hooks[:] = [h]
 
         def once(assume):
             I = Interp(model, assume, h)
@@ -812,6 +819,30 @@ def _coverage(rep, model):
                 else:
                     rep.holds('R5', tag + ':w', 'half-width %s >= %s'
                               % (hw.constant(), need_w))
+            # R5z: the helix runs along the axial extent of the volume:
+            # the source starts at the lower face and climbs the height in
+            # `num_turns` turns (here 1)
+            g = last_hooks[0].geom
+            if g is None:
+                raise Undecided('no geometry constructed')
+            kw = g[2]
+            off = to_rat(kw.get('offset_along_axis', 0))
+            pitch = to_rat(kw.get('pitch', 0))
+            zprobs = []
+            if not (off - zmin).is_zero():
+                zprobs.append('the source starts at z = %r, the volume at '
+                              'z = %s' % (off, zmin))
+            if not (off + pitch * 1 - zmax).is_zero():
+                zprobs.append('after the last turn the source is at z = %r, '
+                              'the volume ends at z = %s' % (off + pitch,
+                                                             zmax))
+            if zprobs:
+                rep.violation('R5z', 'helical_geometry:offset_along_axis',
+                              '%s: %s' % (tag, '; '.join(zprobs)), CONE,
+                              fn.lineno)
+            else:
+                rep.holds('R5z', tag + ':z', 'source travels from z = %s to '
+                          'z = %s' % (zmin, zmax))
         except Undecided as e:
             rep.undecided('R5', tag, str(e), CONE, None)
         except PyRaise as e:
@@ -923,6 +954,136 @@ def _curved_detectors(rep, model):
     except PyRaise as e:
         rep.violation('R1', 'CircularDetector', 'raises %s' % e.name, DET,
                       ci.methods['__init__'].lineno)
+
+
+def _detector_alignment(rep, model):
+    """R1b: the curved 3-d detectors (cylindrical, spherical) align their
+    reference surface with the declared axes by two rotations; evaluated
+    exactly on slanted perpendicular axes with rational norms:
+    `rotation_matrix` maps the initial axes onto the (normalised) declared
+    axes.  `rotation_matrix_from_to(u, v)` is replaced by its specification
+    (C19-R2 decides the function itself): the rotation about u x v that
+    takes u / |u| to v / |v|, which has rational entries here,
+        R = c I + [w]_x + w w^T / (1 + c),  w = u^ x v^,  c = <u^, v^>."""
+    import numpy as _np
+    from ..namodel import NA, NAHooks, NAInterp, na_of, objarr
+    from .. import posalg as PA
+    signs = PA.Signs(set())
+
+    def unit(v):
+        v = [to_rat(x) for x in v]
+        n = PA.root(sum((x * x for x in v), Rat.const(0)), 2, signs)
+        if not n.is_const():
+            raise Undecided('irrational norm of %r' % (v,))
+        return [x / n for x in v]
+
+    def rodrigues(u, v):
+        u, v = unit(na_of(u).a.ravel()), unit(na_of(v).a.ravel())
+        c = sum((a * b for a, b in zip(u, v)), Rat.const(0))
+        w = [u[1] * v[2] - u[2] * v[1], u[2] * v[0] - u[0] * v[2],
+             u[0] * v[1] - u[1] * v[0]]
+        if (c + 1).is_zero():
+            raise Undecided('antiparallel vectors')
+        K = [[Rat.const(0), -w[2], w[1]], [w[2], Rat.const(0), -w[0]],
+             [-w[1], w[0], Rat.const(0)]]
+        R = _np.empty((3, 3), dtype=object)
+        for i in range(3):
+            for j in range(3):
+                R[i, j] = PA.reduce_full(
+                    (c if i == j else Rat.const(0)) + K[i][j] +
+                    w[i] * w[j] / (1 + c))
+        return NA(R, 'float64')
+
+    class AH(NAHooks):
+        def atom1(self, name):
+            if name in ('cos', 'sin'):
+                return lambda x: trig(name, to_rat(x))
+            return NAHooks.atom1(self, name)
+
+        def on_call(self, interp, f, args, kwargs, node):
+            if isinstance(f, Func) and f.name == 'rotation_matrix_from_to':
+                return rodrigues(args[0], args[1])
+            return NAHooks.on_call(self, interp, f, args, kwargs, node)
+
+        def on_super(self, interp, selfv, cls, name, args, kwargs, target):
+            if name == '__init__' and target is not None and \
+                    target[0].name == 'Detector':
+                selfv.attrs['_Detector__partition'] = args[0]
+                selfv.attrs['_Detector__space_ndim'] = args[1]
+                selfv.attrs['_Detector__check_bounds'] = False
+                return None
+            return NotImplemented
+
+        def on_getattr(self, interp, obj, name):
+            if isinstance(obj, Rec) and name in obj.attrs:
+                return obj.attrs[name]
+            if isinstance(obj, ModuleV) and obj.name == 'np.linalg' and \
+                    name == 'norm':
+                def norm(v, axis=None, keepdims=False, **k):
+                    a = na_of(v).a
+                    sq = _np.frompyfunc(lambda z: to_rat(z) * to_rat(z), 1,
+                                        1)(a)
+                    tot = _np.sum(sq, axis=axis, keepdims=keepdims)
+                    rt = lambda z: PA.root(to_rat(z), 2, signs)
+                    if isinstance(tot, _np.ndarray):
+                        return NA(_np.frompyfunc(rt, 1, 1)(tot), 'float64')
+                    return rt(tot)
+                return Builtin('np.linalg.norm', norm)
+            return NAHooks.on_getattr(self, interp, obj, name)
+
+        def on_decide(self, interp, cond, node):
+            if cond.rat is not None and cond.rat.is_const():
+                return NotImplemented
+            return NotImplemented
+    n = 0
+    for cls in ('CylindricalDetector', 'SphericalDetector'):
+        ci = model.get(cls)
+        if ci is None:
+            raise AnalysisError('anchor vanished: %s' % cls)
+        line = ci.methods['__init__'].lineno
+        for axes in ([(1, 2, 2), (2, 1, -2)], [(2, -2, 1), (1, 2, 2)],
+                     [(3, 0, 4), (-4, 0, 3)], [(0, -3, 4), (1, 0, 0)]):
+            n += 1
+            tag = '%s[axes %r]' % (cls, axes)
+            try:
+                I = NAInterp(model, {}, AH())
+                part = Rec('RectPartition', ndim=2)
+                det = I.instantiate(ci, [part], {
+                    'axes': [list(a) for a in axes], 'radius': 2})
+                probs = []
+                s0 = [PA.reduce_full(to_rat(z)) for z in na_of(I.call(
+                    I.getattr_value(det, 'surface'), [[0, 0]], {})).a.ravel()]
+                if any(not z.n.is_zero() for z in s0):
+                    probs.append('surface([0, 0]) = %r is not the origin'
+                                 % (s0,))
+                d0 = na_of(I.call(I.getattr_value(det, 'surface_deriv'),
+                                  [[0, 0]], {})).a
+                if d0.shape != (2, 3):
+                    raise Undecided('surface_deriv shape %r' % (d0.shape,))
+                for k in range(2):
+                    got = [PA.reduce_full(to_rat(z)) for z in d0[k]]
+                    # a curved direction leaves the origin along radius *
+                    # axis, a straight one (cylinder height) along the axis
+                    wants = [[x * sc for x in unit(axes[k])]
+                             for sc in (2, 1)]
+                    if not any(all((g - w).is_zero() for g, w in zip(got, w_))
+                               for w_ in wants):
+                        probs.append('surface_deriv([0, 0])[%d] = %r is not '
+                                     'along the declared axis %r'
+                                     % (k, got, unit(axes[k])))
+                if probs:
+                    rep.violation('R1b', cls, '%s: %s' % (tag, probs[0]),
+                                  DET, line)
+                else:
+                    rep.holds('R1b', tag, 'initial axes mapped onto the '
+                              'declared axes')
+            except Undecided as e:
+                rep.undecided('R1b', tag, str(e), DET, line)
+            except PyRaise as e:
+                rep.violation('R1b', cls, '%s: raises %s at `%s`' % (
+                    tag, e.name, ast.unparse(e.node)[:60] if e.node is not
+                    None else '?'), DET, line)
+    rep.floor('R1b', 'aligned detector instances', n, 8)
 
 
 def trig_reduce(r):
